@@ -52,33 +52,59 @@ class Gen:
         self.used = set()
 
     # ------------------------------------------------------------------ fields
-    def enum(self, width, name=None, allow_bad=0.0, cfg_p=0.0):
-        """An inline enum for a field of `width` bits; mostly acceptable, sometimes ill-formed."""
+    def enum(self, width, name=None, allow_bad=0.0, cfg_p=0.0, use_try=False):
+        """An inline enum for a field of `width` bits: valid by construction (distinct in-range numbers,
+        total unless `use_try`), ill-formed with probability `allow_bad`."""
         r = self.r
         maxv = (1 << width) - 1
-        n = r.randint(1, min(6, maxv + 2))
         style = r.choice(["full", "default", "catch_all", "partial", "both"])
+        if style == "full" and width > 4:
+            style = "default"
+        if style == "partial" and not use_try:
+            style = r.choice(["default", "catch_all"])
         variants = []
-        names = r.sample(VARIANT_NAMES, min(n + 2, len(VARIANT_NAMES)))
-        if style == "full" and width <= 3:
+        names = list(VARIANT_NAMES)
+        r.shuffle(names)
+        if style == "full":
             vals = list(range(maxv + 1))
-            r.shuffle(vals) if self.chance(0.3) else None
+            if self.chance(0.3):
+                r.shuffle(vals)
+            prev = None
             for i, v in enumerate(vals):
-                variants.append({"name": "V%d" % i, "value": None if (v == i and self.chance(0.5) and (i == 0 or vals[i - 1] == i - 1)) else str(v)})
+                implicit = (prev is None and v == 0) or (prev is not None and v == prev + 1)
+                variants.append({"name": "V%d" % i, "value": None if (implicit and self.chance(0.6)) else str(v)})
+                prev = v
         else:
-            cur = 0
-            for i in range(n):
-                if self.chance(0.5):
-                    variants.append({"name": names[i], "value": None})
-                    cur += 1
-                else:
-                    v = r.randint(0, maxv)
-                    variants.append({"name": names[i], "value": str(v)})
-                    cur = v + 1
+            n = r.randint(1, min(5, maxv + 1))
+            vals = sorted(r.sample(range(maxv + 1), n)) if self.chance(0.7) else r.sample(range(maxv + 1), n)
+            prev = None
+            for i, v in enumerate(vals):
+                implicit = (prev is None and v == 0) or (prev is not None and v == prev + 1)
+                variants.append({"name": names[i], "value": None if (implicit and self.chance(0.6)) else str(v)})
+                prev = v
+            # fallback variants get a number too (previous + 1): place them where that number is free and fits
+            def try_insert(kind, nm):
+                for _ in range(8):
+                    pos = r.randint(0, len(variants))
+                    cand = variants[:pos] + [{"name": nm, "value": kind}] + variants[pos:]
+                    nums, pv = [], None
+                    for v in cand:
+                        val = v["value"]
+                        nn = (0 if pv is None else pv + 1) if val in (None, "default", "catch_all") else int(val)
+                        nums.append(nn)
+                        pv = nn
+                    if len(set(nums)) == len(nums) and all(0 <= x <= maxv for x in nums):
+                        variants[:] = cand
+                        return True
+                return False
             if style in ("default", "both"):
-                variants.insert(r.randint(0, len(variants)), {"name": "Dflt", "value": "default"})
+                if not try_insert("default", "Dflt") and not use_try:
+                    return self.enum(width, name, allow_bad, cfg_p, use_try=True) if False else {"name": name or "En", "variants": [{"name": "Only", "value": "default"}]}
             if style in ("catch_all", "both"):
-                variants.insert(r.randint(0, len(variants)), {"name": "Other", "value": "catch_all"})
+                try_insert("catch_all", "Other")
+            kinds = [v["value"] for v in variants]
+            if not use_try and "default" not in kinds and "catch_all" not in kinds:
+                variants = [{"name": "Only", "value": "default"}]
         if self.chance(allow_bad):
             kind = r.choice(["dup", "high", "neg", "empty", "two_default", "two_catch", "dupname"])
             if kind == "dup" and variants:
@@ -98,8 +124,7 @@ class Gen:
         for v in variants:
             if self.chance(cfg_p):
                 v["cfg"] = self.cfg_atom()
-        e = {"name": name or self.fresh(["Kind", "Sel", "St", "Lvl", "Md", "Opt", "Ev", "Typ"]), "variants": variants}
-        return e
+        return {"name": name or self.fresh(["Kind", "Sel", "St", "Lvl", "Md", "Opt", "Ev", "Typ"]), "variants": variants}
 
     def cfg_atom(self):
         return self.pick(['feature = "a"', 'feature = "b"', "unix", 'target_os = "none"', "ca", "cb", "cc", 'feature = "zz"'])
@@ -115,9 +140,9 @@ class Gen:
         width = (end - start) if not single else 1
         if f["base"] != "bool" and self.chance(conv_p) and 1 <= width <= 10:
             if self.chance(0.7):
-                e = self.enum(width, allow_bad=enum_bad, cfg_p=cfg_p / 2)
-                total = self.chance(0.5)
-                f["conversion"] = {"enum": e, "try": self.chance(0.35)}
+                use_try = self.chance(0.35)
+                e = self.enum(width, allow_bad=enum_bad, cfg_p=cfg_p / 2, use_try=use_try)
+                f["conversion"] = {"enum": e, "try": use_try}
             else:
                 f["conversion"] = {"type": self.pick(["conv::Ty", "crate::conv::Ty", "::ddv_conv::Ty", "Ext"]), "try": self.chance(0.5)}
         return f
